@@ -458,7 +458,22 @@ func crashKey(trace string) string {
 	if m := frameRe.FindStringSubmatch(trace); m != nil {
 		return m[1] + "." + m[2]
 	}
+	if strings.Contains(trace, "main.renderDelivered") {
+		return "concurrent-map-access-to-a-delivered-value"
+	}
 	return "unknown"
+}
+
+// libraryCrash: the goroutine that brought the process down was inside the library - or it was the worker's renderDelivered, which
+// only reads values the library handed to the event callback, and the runtime found one of their maps being written at the same
+// time ("fatal error: concurrent map read and map write" / "... iteration and map write"): the harness never writes them, so the
+// writer is the library.
+func libraryCrash(trace string) bool {
+	fg := faultingGoroutine(trace)
+	if strings.Contains(fg, "uhppoted/uhppote-core/") {
+		return true
+	}
+	return strings.HasPrefix(trace, "fatal error: concurrent map") && strings.Contains(fg, "main.renderDelivered")
 }
 
 // raceKey: pair of outermost library functions of the two stacks, line numbers stripped.
@@ -560,7 +575,7 @@ func runChild(bin, prop, tier string, seed uint64, i, n, mi, mn int, b Batch, di
 		} else if ix := strings.Index(s, "fatal error: "); ix >= 0 {
 			cr.crash = s[ix:]
 		}
-		if cr.crash != "" && !strings.Contains(faultingGoroutine(cr.crash), "uhppoted/uhppote-core/") {
+		if cr.crash != "" && !libraryCrash(cr.crash) {
 			// a crash of the harness itself is never a verdict on the library
 			cr.err = fmt.Errorf("worker crashed outside the library: %s", firstLine(cr.crash))
 			cr.stderr = truncate(cr.crash, 1500)
